@@ -43,6 +43,30 @@ fn bignum_forms() -> Vec<Vec<u8>> {
     out
 }
 
+/// A header whose counter signature holds a header whose counter signature ... `depth` levels.
+/// idx 0..28 are the deterministic all-bare / all-[sig] chains for each depth; the rest are random.
+pub fn csig_chain(ctx: &mut Ctx, idx: u64) -> Vec<u8> {
+    let (depth, forced_form): (usize, Option<usize>) = if idx < 28 { ((idx / 2) as usize + 1, Some((idx % 2) as usize)) } else { (1 + ctx.rng.below(14), None) };
+    let via_prot_all = if idx < 56 && idx >= 28 { Some(idx % 2 == 0) } else { None };
+    let mut inner = Item::Map(vec![(Item::int(4), Item::bytes(&[0x11]))]);
+    for _ in 0..depth {
+        let via_prot = via_prot_all.unwrap_or_else(|| ctx.rng.coin());
+        let sig = if via_prot {
+            Item::Array(vec![Item::Bytes(rcbor::det(&inner)), Item::Map(vec![]), Item::bytes(&[1])])
+        } else {
+            Item::Array(vec![Item::Bytes(vec![]), inner.clone(), Item::bytes(&[2])])
+        };
+        let form = forced_form.unwrap_or_else(|| ctx.rng.below(3));
+        let v = match form {
+            0 => sig,
+            1 => Item::Array(vec![sig]),
+            _ => Item::Array(vec![sig, Item::Array(vec![Item::Bytes(vec![]), Item::Map(vec![]), Item::Bytes(vec![])])]),
+        };
+        inner = Item::Map(vec![(Item::int(7), v)]);
+    }
+    rcbor::det(&inner)
+}
+
 impl Check for C07 {
     fn id(&self) -> &'static str {
         "C07"
@@ -56,6 +80,7 @@ impl Check for C07 {
             Phase { name: "every byte string of length <= 2 (quick) / <= 3 (thorough) at every entry point", cases: if q { 65536 + 256 + 1 } else { 16777216 + 65536 + 256 + 1 }, exhaustive: true },
             Phase { name: "dedicated non-canonical families (bignum tag forms, 4-element recipients with empty list, 7:[[sig]], key_ops orders, float widths, timestamps)", cases: 2000, exhaustive: true },
             Phase { name: "test-suite vectors at every entry point", cases: corpus().len() as u64, exhaustive: true },
+            Phase { name: "counter-signature chains of depth 1-14, each level bare / [sig] / [sig, sig], through protected or unprotected headers", cases: scale(if q { 3000 } else { 60000 }, b), exhaustive: false },
         ]
     }
     fn run_case(&self, ctx: &mut Ctx, phase: usize, idx: u64) {
@@ -200,6 +225,23 @@ impl Check for C07 {
                         all_entry_points(ctx, &b);
                     }
                 }
+            }
+            6 => {
+                let b = csig_chain(ctx, idx);
+                ctx.max("csig-chain-bytes", b.len() as u64);
+                let accepted = fixed_point_check(ctx, Ty::Header, &b, false);
+                ctx.count(if accepted { "csig-chain-accepted" } else { "csig-chain-rejected" });
+                // the same header inside messages
+                let mut s1 = vec![0x84];
+                rcbor::put_head(&mut s1, 2, b.len() as u64, &mut Style::canonical());
+                s1.extend_from_slice(&b);
+                s1.extend_from_slice(&[0xa0, 0xf6, 0x40]);
+                fixed_point_check(ctx, Ty::Sign1, &s1, false);
+                let mut e0 = vec![0x83, 0x40];
+                e0.extend_from_slice(&b);
+                e0.push(0xf6);
+                fixed_point_check(ctx, Ty::Encrypt0, &e0, false);
+                fixed_point_check(ctx, Ty::Signature, &e0, false);
             }
             _ => {
                 let c = corpus();
